@@ -28,6 +28,7 @@ func register(r *mc.Registry) {
 		sc.SplitDepth = 3
 		sc.TickLimit = 10_000_000
 	}
+	famNames := concatFamily(r, allInputs(3))
 	z := r.Seq("zero/methods", zeroScenario(zeroMethods, "zero"))
 	z.SplitDepth = 1
 	z = r.Seq("zero/as-argument", zeroScenario(zeroArgs, "zero-arg"))
@@ -80,7 +81,8 @@ func register(r *mc.Registry) {
 	r.Extra["bounds"] = map[string]any{
 		"alphabet": []int{0, 1, 2}, "max_input_len": maxLen, "pattern_length": "2*len+4 (Generate: 7)",
 		"producers": names, "producer_count": len(names),
-		"zero_value_methods": zeroNames(zeroMethods), "zero_value_as_argument": zeroNames(zeroArgs),
+		"concat_state_family": map[string]any{"X,Y": shapeNames(concatShapes), "pipelines": famNames, "inputs": "up to length 3", "patterns": "every H/N string when the output has at most 3 elements, the bounded family (h1/h2 HasNext calls before odd/even elements, then the exhausted tail) otherwise", "note": "every instance is built from fresh iterator values; no iterator value is used twice"},
+		"zero_value_methods":  zeroNames(zeroMethods), "zero_value_as_argument": zeroNames(zeroArgs),
 		"two_sided_max_input_len": twoLen, "two_sided_extra_calls": extra, "two_sided_max_repeated_hasnext": red,
 		"hamt_sizes": hamtSizes, "hamt_hashers": hasherNames(),
 		"concurrent_inputs": concInputs,
@@ -92,6 +94,14 @@ func register(r *mc.Registry) {
 		"element types other than int and tuples of int",
 		"more than two threads; two threads on the same side of Duplicate (the property gives one consumer per side)",
 	}
+}
+
+func shapeNames(ss []shape) []string {
+	var out []string
+	for _, s := range ss {
+		out = append(out, s.name)
+	}
+	return out
 }
 
 func zeroNames(ops []zeroOp) []string {
